@@ -25,7 +25,7 @@ class SqliteRecordIterator(rbql_engine.RBQLInputIterator):
         self.variable_prefix = variable_prefix
         self.cursor = self.db_connection.cursor()
         import sqlite3
-        if re.match('^[a-zA-Z0-9_]*$', table_name) is None:
+        if re.match(r'^[a-zA-Z0-9_]*\Z', table_name) is None:
             raise rbql_engine.RbqlIOHandlingError('Unable to use "{}": input table name can contain only alphanumeric characters and underscore'.format(table_name))
         try:
             self.cursor.execute('SELECT * FROM {};'.format(table_name))
